@@ -193,6 +193,11 @@ func (p *SM2Point) bytes(out *[SM2BytesLengthUncompressed]byte, safe bool) []byt
 	}
 }
 
+// IsInfinity returns 1 if p is the point at infinity, and 0 otherwise.
+func (p *SM2Point) IsInfinity() int {
+	return p.z.IsZero()
+}
+
 func (q *SM2Point) Negate(p *SM2Point) *SM2Point {
 	q.x.Set(p.x)
 	q.y.Opp(p.y)
